@@ -1,3 +1,4 @@
+import MevCommit.Model.Wiring
 import MevCommit.Model.Abi
 import MevCommit.Lemmas.BE
 open MevCommit MevCommit.Abi
@@ -136,3 +137,29 @@ theorem C07_calldata_is_commitment (sel : Bytes) (hs : sel.length = 4)
   rw [e1, e2, e3, e4]
   exact C07_call_roundtrip sel hs _ (b _ (by omega) ha.2) (b _ (by omega) (by omega))
     (b _ (by omega) (by omega)) (b _ (by omega) (by omega)) hl
+
+/-! ### Whole-node wiring (pkg/node.NewNode), tied by the `nodewire` harness -/
+section Wiring
+open MevCommit.Wiring
+
+/-- as NewNode wires the node, every commitment transaction goes to the configured commitment
+store, whatever the chain says about stake and allowance -/
+theorem C07_wire_commit_tx_at_configured_store (wd : World) :
+    ∀ t ∈ (scenario nodeWire wd).commitTxsAt, t = Target.preconf := by
+  cases wd with
+  | mk s a => cases s <;> cases a <;> decide
+
+/-- for every wiring: as many commitments reach the bidder as commitment transactions were sent -/
+theorem C07_wire_commitments_eq_txs (w : Wire) (wd : World) :
+    (scenario w wd).commitments = (scenario w wd).commitTxsAt.length := by
+  simp only [scenario]
+  split <;> rfl
+
+/-- the node yields a commitment exactly when the provider is staked and the bidder funded at the
+configured registries -/
+theorem C07_wire_commitment_iff (wd : World) :
+    (scenario nodeWire wd).commitments = 1 ↔ (wd.staked = true ∧ wd.allowed = true) := by
+  cases wd with
+  | mk s a => cases s <;> cases a <;> decide
+
+end Wiring
